@@ -480,6 +480,19 @@ func vfGenC13(rt *rapid.T) vfC13Case {
 		x.Outcome = rapid.SampledFrom([]string{"confirm", "confirm", "confirm", "cancel", "bad_act", "bad_cfg"}).Draw(rt, "outcome")
 		x.ActTail = vfGenSafeBytes(rt, "acttail", 60)
 		x.CfgTail = vfGenSafeBytes(rt, "cfgtail", 60)
+		// now and then the held traffic is large: pieces of more than half a read buffer (a paste, a burst of output), numbered so
+		// that any lost, repeated or overwritten stretch shows
+		if big := rapid.SampledFrom([]int{0, 0, 0, 0, 0, 17000, 20000, 33000, 40000}).Draw(rt, "bigtail"); big > 0 {
+			var bb bytes.Buffer
+			for k := 0; bb.Len() < big; k++ {
+				fmt.Fprintf(&bb, "t%06d;", k)
+			}
+			if rapid.Bool().Draw(rt, "bigtail_side") {
+				x.ActTail = append(x.ActTail, bb.Bytes()...)
+			} else {
+				x.CfgTail = append(x.CfgTail, bb.Bytes()...)
+			}
+		}
 		x.ActCuts = vfGenCutsIn(rt, "actcut", 160+len(x.ActTail))
 		x.CfgCuts = vfGenCutsIn(rt, "cfgcut", 100+len(x.CfgTail))
 		x.CfgEarly = rapid.IntRange(0, 3).Draw(rt, "cfgearly") == 0
